@@ -10,6 +10,7 @@ mod ops_c18;
 mod ops_poly;
 mod ops_relate;
 mod ops_segseg;
+mod ops_simplify;
 mod ops_valid;
 
 use ctx::Ctx;
@@ -77,6 +78,7 @@ fn dispatch_case(cx: &mut Ctx, n: u64, case: &Value) {
         "segseg" => ops_segseg::segseg_case(cx, n, case),
         "kernel" => ops_kernel::kernel_case(cx, n, case),
         "hull" => ops_hull::hull_case(cx, n, case),
+        "simplify" => ops_simplify::simplify_case(cx, n, case),
         "poly" => ops_poly::poly_case(cx, n, case),
         "relate" => ops_relate::relate_case(cx, n, case),
         "coordpos" => ops_relate::coordpos_case(cx, n, case),
